@@ -18,7 +18,9 @@ def run(ctx):
             for ver in (771, 772):
                 if i in ("Chrome-58", "Firefox-55") and ver == 772:
                     continue
-                if ctx.quick and len(g["conns"]) == 2 and (hash((i, ver, json.dumps(g, sort_keys=True), ctx.seed)) % 3):
+                if ctx.quick and len(g["conns"]) == 1 and g["conns"][0]["remove_sni"] and i == "Golang":
+                    continue
+                if ctx.quick and len(g["conns"]) == 2 and (hash((i, ver, json.dumps(g, sort_keys=True), ctx.seed)) % 6):
                     continue
                 scns.append({"sc": len(scns), "id": i, "ver": ver, "cert": g["cert"], "conns": g["conns"]})
     evs = ctx.drv("certverify", {"scenarios": scns}, timeout=1500)
